@@ -29,8 +29,8 @@ package backend
 // ---- the weighted queue: weights are normalised by a common divisor and every candidate gets weight/g >= 1 slots
 // Two facts about divisibility the SMT back ends do not derive (nonlinear); stated once as axioms (trusted arithmetic):
 // (mod is the mathematical remainder; for the non-negative operands used here it is Go's %)
-//@ axiom divTrans: forall(x int, forall(g int, forall(h int, g > 0 && h > 0 && mod(x, g) == 0 && mod(g, h) == 0 ==> mod(x, h) == 0)))
-//@ axiom euclidStep: forall(a int, forall(b int, forall(d int, b > 0 && d > 0 && mod(b, d) == 0 && mod(mod(a, b), d) == 0 ==> mod(a, d) == 0)))
+//@ axiom divTrans for gcd: forall(x int, forall(g int, forall(h int, g > 0 && h > 0 && mod(x, g) == 0 && mod(g, h) == 0 ==> mod(x, h) == 0)))
+//@ axiom euclidStep for gcd$1: forall(a int, forall(b int, forall(d int, b > 0 && d > 0 && mod(b, d) == 0 && mod(mod(a, b), d) == 0 ==> mod(a, d) == 0)))
 //@ property C25: gcd$1, gcd, newBalancer
 // Euclid's loop: the result is positive and divides both arguments
 //@ func gcd$1
@@ -46,7 +46,7 @@ package backend
 //@   loop 0(i) invariant 1 <= i && i <= len(ary) && g > 0 && forall(k, 0, i, mod(ary[k], g) == 0)
 //@   ensures ret0 > 0 && forall(k, 0, len(ary), mod(ary[k], ret0) == 0)
 // a positive multiple of g is at least g (nonlinear; stated as an axiom together with the two above)
-//@ axiom divGE: forall(x int, forall(g int, x > 0 && g > 0 && mod(x, g) == 0 ==> x / g >= 1 && x / g <= x))
+//@ axiom divGE for newBalancer: forall(x int, forall(g int, x > 0 && g > 0 && mod(x, g) == 0 ==> x / g >= 1 && x / g <= x))
 // The queue handed to the shuffle (a permutation, trusted) lists every candidate at least once and nothing else.
 //@ func newBalancer
 //@   requires len(indices) <= 1024 && forall(k, 0, len(weights), 0 < weights[k] && weights[k] <= 1<<20)
